@@ -123,7 +123,7 @@ void MLRPredictY(matrix* mx,
     size_t i, j, k;
     double ypred, rss, tss;
 
-    if(predicted_y->row != mx->row && predicted_y->col != model->b->col){
+    if(predicted_y->row != mx->row || predicted_y->col != model->b->col){
       ResizeMatrix(predicted_y, mx->row, model->b->col);
     }
 
